@@ -128,6 +128,10 @@ form('call-unlisted', { ops: [], instr: false }, F => `${F.loc()}.charAt(1)`)
 form('call-nested-arg-ops', { ops: ['concat', 'trim', '+'] }, F => `${F.loc()}.concat(${F.loc()}.trim(), ${F.s()} + ${F.f()})`)
 form('call-arg-seq-instrumented-first', { ops: ['concat', '+'] }, F => { const u = F.loc(); return `${F.loc()}.concat((${u} = ${F.loc()} + ${F.f()}, ${u}))` })
 form('tpl-seq-second-subst', { ops: ['tpl', '+'] }, F => { const u = F.loc(); return `\`\${${F.f()}}-\${(${u} = ${F.s()} + ${F.f()}, ${u})}\`` })
+form('call-args-reassigned-by-replacer', { ops: ['replace'] }, F => { const text = F.loc(); const sep = F.loc("'⟦'"); const fn = F.loc(`(m) => { ${sep} = ${F.s()}; return '<' }`); return `${text}.replace(${sep}, ${fn})` })
+form('call-args-reassigned-by-tostring', { ops: ['concat'] }, F => { const base = F.loc(); const head = F.loc(); const tail = F.loc(`{ toString() { ${head} = ${F.s()}; return 't' } }`); return `${base}.concat(${head}, ${tail})` })
+form('proto-call-args-reassigned-by-replacer', { ops: ['replace'] }, F => { const text = F.loc(); const sep = F.loc("'⟦'"); const fn = F.loc(`(m) => { ${sep} = ${F.s()}; return '<' }`); return `String.prototype.replace.call(${text}, ${sep}, ${fn})` })
+form('plus-operand-reassigned-by-valueof', { ops: ['+'], kf: 'D27' }, F => { const a = F.loc(); const o = F.loc(`{ valueOf() { ${a} = ${F.s()}; return 'v' } }`); return `${a} + ${o}` })
 form('call-arg-alias', { ops: ['concat'] }, F => { const a = F.loc(); return `${a}.concat(${a}, (${a} = ${F.s()}, ${F.f()}), ${a})` })
 form('call-new-member-recv', { ops: ['trim'] }, F => `new w.C${F.id()}().s1.trim()`)
 form('call-super-like-member', { ops: ['trim'] }, F => `w.o${F.id()}.o2.s${F.id()}.trim()`)
